@@ -7,6 +7,7 @@ import pjrpc
 from pjrpc.common import UNSET, Request, Response
 from pjrpc.server import AsyncDispatcher, Dispatcher
 from pjrpc.server import dispatcher as _disp
+from pjrpc.server import validators as _validators
 
 from .coqterm import cjson, cstr, cexn, clist, copt, cZ, cbool
 
@@ -24,6 +25,10 @@ EXC_TABLE = {
     3: lambda: AssertionError('S3CR3T3'),
     4: lambda: RuntimeError('S3CR3T4'),
     5: lambda: MyCustomError('S3CR3T5'),
+    # library exception types that are NOT protocol errors: raised inside a body they are foreign exceptions too
+    6: lambda: _validators.ValidationError('S3CR3T6'),
+    7: lambda: pjrpc.exceptions.DeserializationError('S3CR3T7'),
+    8: lambda: pjrpc.exceptions.IdentityError('S3CR3T8'),
 }
 EXC_NAMES = ['ValueError', 'KeyError', 'TypeError', 'AssertionError', 'RuntimeError', 'MyCustomError', 'Traceback', 'S3CR3T']
 
